@@ -32,7 +32,7 @@ PROPS = {
         assumptions=['the MAC key of a pair is identified by the pair (same DH keys within a session)']),
     'C19': dict(
         module='Props.C19', level='proof',
-        profiles=dict(quick=[('sched', 12, 1)], thorough=[('sched', 80, 8), ('life', 150, 4)]),
+        profiles=dict(quick=[('sched', 12, 1), ('mem', 5, 1)], thorough=[('sched', 80, 8), ('life', 150, 4), ('mem', 60, 4)]),
         explanation='theorems over all histories (Props.C19: at most 4 counters and 4 MAC-history entries, reveal queue at most 3 keys per message accepted since the last send and emptied by each send); Go oracle measures counters, MAC history, reveal queue, resend queue, injections and the reveal field of every emitted message along long runs',
         assumptions=['session-wide constant for the reveal queue is a two-party fact, measured not proved', 'heap size beyond the modelled lists is not measured here (see C08)']),
     'C15': dict(
@@ -67,12 +67,12 @@ PROPS = {
         assumptions=['a MAC valid under an undisclosed key was produced by the peer (HMAC unforgeability, ideal crypto)', CRYPTO_ASSUME]),
     'C06': dict(
         module='Props.C06', level='proof',
-        profiles=dict(quick=[('reject', 120, 1)], thorough=[('reject', 800, 8), ('tags', 100, 2)]),
+        profiles=dict(quick=[('reject', 160, 1)], thorough=[('reject', 1000, 8), ('tags', 100, 2)]),
         explanation='exact final state of every rejection case of a data message, of foreign-instance and other-version messages (Props.C06: state unchanged, so every continuation is identical); for rejected AKE traffic the twin-run Go oracle runs the same genuine traffic with and without the rejected message and compares all plaintexts, errors, events and IsEncrypted values',
         assumptions=['behavioural equivalence after rejected AKE messages is decided by the twin-run oracle, not a theorem', 'known finding: version commit by a rejected first message']),
     'C11': dict(
         module='Props.C11', level='proof',
-        profiles=dict(quick=[('smp', 25, 1)], thorough=[('smp', 200, 8)]),
+        profiles=dict(quick=[('smp', 40, 1)], thorough=[('smp', 300, 8)]),
         explanation='algebraic theorems for all exponents and secrets (Props.C11: honest proofs verify, equal secrets succeed on both sides, different secrets fail on both sides given p, q prime); model tied to smp*.go by differential runs with real 1536-bit arithmetic; Go oracle over honest runs (secret pairs incl. empty/long/binary/one bit apart, question, either initiator, back to back, traffic in between, both versions) and a relay between two separately keyed sessions',
         assumptions=['Nat.Prime p and Nat.Prime q are hypotheses of c11_unequal_fail (no primality certificate available offline)', 'the honest proof exponents are non-zero (hypothesis of the success theorems: a 2^-1535 event in which the library, like libotr, rejects an honest message)', 'binding of the hashed secret to fingerprints and SSID relies on collision resistance of SHA-256']),
     'C12': dict(
@@ -82,7 +82,7 @@ PROPS = {
         assumptions=['soundness of the zero-knowledge proofs against non-degenerate cheating is computational: covered by generated inputs only', 'known finding: OTRv2 accepts degenerate group elements (test-pinned)']),
     'C13': dict(
         module='Props.C13', level='proof',
-        profiles=dict(quick=[('parse', 150, 1), ('life', 25, 1), ('keyfile', 150, 1)], thorough=[('parse', 1500, 8), ('life', 300, 8), ('keyfile', 2000, 4), ('tags', 100, 2), ('frag', 40, 2)]),
+        profiles=dict(quick=[('parse', 150, 1), ('life', 25, 1), ('keyfile', 150, 1), ('ake', 60, 1)], thorough=[('parse', 1500, 8), ('life', 300, 8), ('keyfile', 2000, 4), ('tags', 100, 2), ('frag', 40, 2), ('ake', 600, 4)]),
         explanation='total model with explicit panic outcomes; theorems: complete list of panic sites reachable from a data message, no panic under the session invariants, allocation bound of ExtractMPIs (Props.C13); Go harness runs every public parser and Receive in every conversation state on structured/mutated/raw input under recover with time and allocation measurement, a usability probe afterwards, and fails or shortens the k-th randomness read for every k',
         assumptions=['the key-file reader is run in a worker process so that a stack overflow or hang is observed rather than fatal', 'Go runtime behaviour (stack, GC) is observed, not modelled']),
     'C08': dict(
